@@ -568,7 +568,8 @@ def run(cx):
         "operations_exercised": sorted(tl.ops),
         "model_states_leg_M": mc.distinct,
         "model_transitions_leg_M": mc.states_generated,
-        "exhaustive": "leg M and the enumerated part of leg G: every history = one of 5 start configurations (aliased list, "
+        "exhaustive": False,   # the random parts are samples; what IS enumerated completely:
+        "exhaustive_part": "leg M and the enumerated part of leg G: every history = one of 5 start configurations (aliased list, "
                       "nested list, map holding a list, two sets, string + list; 2 steps each) followed by every sequence of "
                       "<= MaxLen steps over the enumerated alphabet ContainersGen!Alphabet (leg M: MaxLen 2 quick / 3 thorough; "
                       "leg G: 1 quick / 2 thorough); the random parts are samples",
